@@ -548,6 +548,125 @@ func (m *C08) OnStep(_ explore.Ghost, st *explore.Step) []V {
 	if cc := coinsChanged(pre, post); len(cc) > 0 && !bankMayChange {
 		out = append(out, V{Kind: "C08/footprint/" + t + "/bank", Detail: fmt.Sprintf("%s changed coins %v", st.Act.Label, cc)})
 	}
+	return append(out, namedHolder(st)...)
+}
+
+// namedHolder: after a successful message that creates an entity or moves a role, the role is held by
+// exactly the account(s) the message names. The role checks above read the holder from state, so a
+// hand-over that stores something else than it was told silently gives the role to the wrong account.
+func namedHolder(st *explore.Step) []V {
+	if !st.Res.OK || st.Act.Kind != explore.ActMsg {
+		return nil
+	}
+	pre, post := st.Pre, st.Post
+	var out []V
+	bad := func(what string, got []byte, want string) {
+		w, err := sdk.AccAddressFromBech32(want)
+		if err != nil || !bytes.Equal(got, w) {
+			out = append(out, V{Kind: "C08/role-holder-differs-from-the-one-named/" + actType(st.Act),
+				Detail: fmt.Sprintf("%s: %s is now %s, the message names %s", st.Act.Label, what, addrStr(got), want)})
+		}
+	}
+	issuers := func(s *chain.Snapshot, classKey uint64) map[string]bool {
+		m := map[string]bool{}
+		for _, i := range s.ClassIssuers {
+			if i.ClassKey == classKey {
+				m[addrStr(i.Issuer)] = true
+			}
+		}
+		return m
+	}
+	canon := func(a string) string {
+		if b, err := sdk.AccAddressFromBech32(a); err == nil {
+			return addrStr(b)
+		}
+		return a
+	}
+	switch msg := st.Res.Msg.(type) {
+	case *basetypes.MsgUpdateClassAdmin:
+		if c := post.ClassByID(msg.ClassId); c != nil {
+			bad("the admin of class "+msg.ClassId, c.Admin, msg.NewAdmin)
+		}
+	case *basetypes.MsgUpdateProjectAdmin:
+		if p := post.ProjectByID(msg.ProjectId); p != nil {
+			bad("the admin of project "+msg.ProjectId, p.Admin, msg.NewAdmin)
+		}
+	case *baskettypes.MsgUpdateCurator:
+		if b := post.BasketByDenom(msg.Denom); b != nil {
+			bad("the curator of basket "+msg.Denom, b.Curator, msg.NewCurator)
+		}
+	case *basetypes.MsgUpdateClassIssuers:
+		c := pre.ClassByID(msg.ClassId)
+		if c == nil {
+			break
+		}
+		want := issuers(pre, c.Key)
+		both := false
+		for _, r := range msg.RemoveIssuers {
+			for _, a := range msg.AddIssuers {
+				both = both || canon(a) == canon(r)
+			}
+		}
+		if both {
+			break // the statement does not say which wins
+		}
+		for _, r := range msg.RemoveIssuers {
+			delete(want, canon(r))
+		}
+		for _, a := range msg.AddIssuers {
+			want[canon(a)] = true
+		}
+		if got := issuers(post, c.Key); fmt.Sprint(got) != fmt.Sprint(want) {
+			out = append(out, V{Kind: "C08/role-holder-differs-from-the-one-named/" + actType(st.Act),
+				Detail: fmt.Sprintf("%s: issuers of %s are now %v, the message asks for %v", st.Act.Label, msg.ClassId, got, want)})
+		}
+	case *basetypes.MsgCreateClass:
+		if r, ok := st.Res.Resp.(*basetypes.MsgCreateClassResponse); ok {
+			if c := post.ClassByID(r.ClassId); c != nil {
+				bad("the admin of the new class "+r.ClassId, c.Admin, msg.Admin)
+				want := map[string]bool{}
+				for _, a := range msg.Issuers {
+					want[canon(a)] = true
+				}
+				if got := issuers(post, c.Key); fmt.Sprint(got) != fmt.Sprint(want) {
+					out = append(out, V{Kind: "C08/role-holder-differs-from-the-one-named/" + actType(st.Act),
+						Detail: fmt.Sprintf("%s: issuers of the new class %s are %v, the message names %v", st.Act.Label, r.ClassId, got, want)})
+				}
+			}
+		}
+	case *basetypes.MsgCreateProject:
+		if r, ok := st.Res.Resp.(*basetypes.MsgCreateProjectResponse); ok {
+			if p := post.ProjectByID(r.ProjectId); p != nil {
+				bad("the admin of the new project "+r.ProjectId, p.Admin, msg.Admin)
+			}
+		}
+	case *basetypes.MsgCreateBatch:
+		if r, ok := st.Res.Resp.(*basetypes.MsgCreateBatchResponse); ok {
+			if b := post.BatchByDenom(r.BatchDenom); b != nil {
+				bad("the issuer of the new batch "+r.BatchDenom, b.Issuer, msg.Issuer)
+			}
+		}
+	case *baskettypes.MsgCreate:
+		if r, ok := st.Res.Resp.(*baskettypes.MsgCreateResponse); ok {
+			if b := post.BasketByDenom(r.BasketDenom); b != nil {
+				bad("the curator of the new basket "+r.BasketDenom, b.Curator, msg.Curator)
+			}
+		}
+	case *data.MsgDefineResolver:
+		if r, ok := st.Res.Resp.(*data.MsgDefineResolverResponse); ok {
+			for _, x := range post.Resolvers {
+				if x.Id == r.ResolverId {
+					if msg.Public {
+						if len(x.Manager) != 0 {
+							out = append(out, V{Kind: "C08/role-holder-differs-from-the-one-named/" + actType(st.Act), Detail: st.Act.Label + ": a public resolver got a manager"})
+						}
+					} else {
+						bad(fmt.Sprintf("the manager of the new resolver %d", r.ResolverId), x.Manager, msg.Definer)
+					}
+				}
+			}
+		}
+	}
 	return out
 }
 
